@@ -60,6 +60,9 @@ func TestC01(t *testing.T) {
 		if la := rapid.IntRange(0, 39).Draw(t, "lateAnswer"); la == 17 || la == 23 {
 			sc = genLateAnswer(t)
 			rec.Class("late-answer-during-the-apply-phase")
+		} else if la < 4 {
+			sc = genTailScenario(t)
+			rec.Class("tail-shard-drained-for-scale-down")
 		} else {
 			sc = Gen(t, biasC01())
 		}
@@ -181,7 +184,11 @@ func genTailScenario(t *rapid.T) *Scenario {
 		for k := 0; k < nT; k++ {
 			size := int64(rapid.SampledFrom([]int{100, 300, 450, 600, 900}).Draw(t, fmt.Sprintf("s%d-t%d-size", i, k))) / int64(nT)
 			sc.Targets = append(sc.Targets, TargetSpec{Hash: hash, Job: "j0", Explore: "good", Series: size, Total: size})
-			sp.Held = append(sp.Held, Held{Hash: hash, Health: "up", Times: uint64(rapid.IntRange(3, 6).Draw(t, fmt.Sprintf("s%d-t%d-times", i, k))), Series: size, Total: size})
+			health := "up"
+			if rapid.IntRange(0, 3).Draw(t, fmt.Sprintf("s%d-t%d-down", i, k)) == 0 {
+				health = "down" // a settled target whose scrapes fail is drained like any other
+			}
+			sp.Held = append(sp.Held, Held{Hash: hash, Health: health, Times: uint64(rapid.IntRange(3, 6).Draw(t, fmt.Sprintf("s%d-t%d-times", i, k))), Series: size, Total: size})
 			hash++
 		}
 		rs.Shards = append(rs.Shards, sp)
